@@ -249,6 +249,21 @@ func c20Prepare(r *fw.Rand, p *ref.Packet) (*rtp.Packet, error) {
 			}
 		}
 	}
+	if (p.ExtKind == ref.ExtOneByte || p.ExtKind == ref.ExtTwoByte) && len(p.Elems) > 0 && r.Chance(1, 12) {
+		// a header decoded from a wire image in which an id occurs twice (RFC 8285 does not forbid it, Unmarshal keeps both entries)
+		q := *p
+		dup := p.Elems[r.Intn(len(p.Elems))]
+		n := len(dup.Val)
+		if n == 0 {
+			n = 1
+		}
+		q.Elems = append(append([]ref.Elem{}, p.Elems...), ref.Elem{ID: dup.ID, Val: r.Bytes(n)})
+		var re rtp.Packet
+		if re.Unmarshal(ref.Encode(&q, nil)) == nil {
+			re.Payload = append([]byte(nil), re.Payload...)
+			pk = &re
+		}
+	}
 	if pk.Extension && len(pk.Extensions) > 0 && r.Chance(1, 10) {
 		// the exported X flag switched off while the elements stay in the list (switched on again by some of the mutations)
 		pk.Extension = false
